@@ -102,6 +102,27 @@ def parse_assumptions(out):
     return [b.strip() for b in blocks if b.strip().startswith(("Closed under", "Axioms:"))]
 
 
+GEN_OUTPUT = {"gen_consts.py": "Gen/Consts", "gen_stubs.py": "Gen/Stubs", "gen_kernels.py": "Gen/Kernels",
+              "gen_c12.py": "Gen/C12Consts", "gen_c17.py": "Gen/C17Consts", "gen_timeunit.py": "Gen/TimeUnit"}
+
+
+def coq_deps(files):
+    """transitive closure of `Require ... UV.X.Y` from the given theory files (paths relative to theories/, no .v)"""
+    seen, todo = set(), list(files)
+    while todo:
+        f = todo.pop()
+        if f in seen:
+            continue
+        seen.add(f)
+        try:
+            text = re.sub(r"\(\*.*?\*\)", " ", open(os.path.join(TH, f + ".v")).read(), flags=re.S)
+        except OSError:
+            continue
+        for m in re.finditer(r"UV\.([A-Za-z0-9_.]+)", text):
+            todo.append(m.group(1).rstrip(".").replace(".", "/"))
+    return seen
+
+
 def prove(ctx, pid, extra_files=()):
     """Full proof step for property `pid`:
        regenerate Gen, build Properties_<pid>.vo and deps, hygiene, Print Assumptions.
@@ -109,6 +130,14 @@ def prove(ctx, pid, extra_files=()):
        Returns True when every obligation checked."""
     t0 = time.time()
     fails = regenerate(ctx.log)
+    # a translator that no longer understands /repo's source breaks the tie of the properties whose development
+    # uses its output (their generated file is stale); the others are not affected by it
+    deps = coq_deps(["Properties_%s" % pid] + list(extra_files))
+    mine = [(n, m) for n, m in fails if GEN_OUTPUT.get(n, "?") in deps or n not in GEN_OUTPUT]
+    for name, msg in fails:
+        if (name, msg) not in mine:
+            ctx.log("translator %s failed, but %s does not use its output (not counted for this property)" % (name, pid))
+    fails = mine
     for name, msg in fails:
         ctx.broken("translator %s failed on /repo's current source" % name, msg)
     prop_file = os.path.join(TH, "Properties_%s.v" % pid)
